@@ -698,6 +698,28 @@ class Ref:
                                     "members": sorted([t, i] for t, i in g["members"])}
         return "ok"
 
+    def t_group_edit(self, op, env):
+        g = self.groups.get(op["gid"])
+        if g is None:
+            return "unknown"
+        how = op["how"]
+        if how == "add":
+            for t, i in op["members"]:
+                if i not in {"Reaction": self.rxns, "Metabolite": self.mets, "Gene": self.genes}[t]:
+                    return "unknown"
+            g["members"] = sorted({(t, i) for t, i in g["members"]} | {(t, i) for t, i in op["members"]})
+            g["members"] = [list(x) for x in g["members"]]
+        elif how == "remove":
+            rm = {(t, i) for t, i in op["members"]}
+            g["members"] = [m for m in g["members"] if tuple(m) not in rm]
+        elif how == "kind":
+            if op["value"] not in ("collection", "classification", "partonomy"):
+                return "raises"
+            g["kind"] = op["value"]
+        else:
+            g["name"] = op["value"]
+        return "ok"
+
     def t_remove_groups(self, op, env):
         for gid in op["ids"]:
             self.groups.pop(gid, None)
